@@ -23,11 +23,11 @@ pub fn def() -> PropDef {
     PropDef {
         id: "C18",
         level: "exploration",
-        rule: "file-backed stores built from every subset of size <= k of a 16-entry universe (2 documents x 2 authors x keys {'',a,ab}, equal timestamps, deletion markers), flushed and closed; then, with plain redb, the per-author head table, the by-key index, both or neither are deleted and the store is reopened 1..3 times (each subset offered in universe order and in reverse order, so that on equal timestamps the maintained head is not always the one at the greatest key); heads must equal the per-author maximum over the records, key-ordered queries (flat key-author and latest-per-key, both directions, with and without empties) must equal the query oracle, and without deletion the whole observable content must be identical after every reopen; non-trivial = a non-empty store with at least one derived table deleted",
+        rule: "file-backed stores built from every subset of size <= k of a 16-entry universe (2 documents x 2 authors x keys {'',a,ab}, equal timestamps, deletion markers), flushed and closed; then, with plain redb, the per-author head table, the by-key index, both or neither are deleted and the store is reopened 1..3 times (each subset offered in universe order and in reverse order, so that on equal timestamps the maintained head is not always the one at the greatest key); heads must equal the per-author maximum over the records, key-ordered queries (flat key-author and latest-per-key, both directions, with and without empties) must equal the query oracle, and without deletion the whole observable content must be identical after every reopen; a large database (2100 authors in one document, two entries each, the newest at the smaller key for every other author) goes through the same four variants with two reopen cycles; non-trivial = a non-empty store with at least one derived table deleted",
         assumptions: &["tables are deleted whole (as an older version would simply not have them); partially filled derived tables are outside the statement", "where several keys attain an author's maximal timestamp any of them is accepted as the head's key"],
         bound: |t| match t {
-            Tier::Quick => json!({"subsets": "<= 4 of 16 (2517 stores)", "variants": "4 x 2 arrival orders", "reopen_cycles": "1..3"}),
-            Tier::Thorough => json!({"subsets": "<= 5 of 16 (6885 stores)", "variants": "4 x 2 arrival orders", "reopen_cycles": "1..3"}),
+            Tier::Quick => json!({"subsets": "<= 4 of 16 (2517 stores)", "variants": "4 x 2 arrival orders", "reopen_cycles": "1..3", "large": "2100 authors x 2 entries x 4 variants"}),
+            Tier::Thorough => json!({"subsets": "<= 5 of 16 (6885 stores)", "variants": "4 x 2 arrival orders", "reopen_cycles": "1..3", "large": "2100 authors x 2 entries x 4 variants"}),
         },
         run,
         replay,
@@ -269,8 +269,129 @@ fn run_case(offered: &[Spec], variant: u8) -> (Vec<(&'static str, String)>, u64)
     (bad, checks)
 }
 
+/// A large database: `m` authors in one document, two entries each — for every other author the
+/// newest entry sits at the smaller key, for the others at the greater one (records are scanned
+/// in key order). variant as in `run_case` (bit 0: heads table deleted, bit 1: by-key table).
+fn run_many_authors(m: u32, variant: u8) -> (Vec<(&'static str, String)>, u64) {
+    use iroh_docs::sync::Record;
+    set_clock(NOW);
+    let mut bad = vec![];
+    let mut checks = 0u64;
+    let dir = scratch_dir();
+    let path = dir.path().join("docs.redb");
+    let ns = ns_id(0);
+    let observe_big = |sut: &mut Sut| -> (Vec<SignedEntry>, Vec<SignedEntry>, Vec<([u8; 32], u64, Vec<u8>)>) {
+        let heads = sut.heads(ns).into_iter().map(|(a, t, k)| (a.to_bytes(), t, k)).collect();
+        (sut.dump(ns), dump_by_key(sut, ns), heads)
+    };
+    let maintained = {
+        let mut sut = Sut::persistent_with(&path, &[0]).expect("store");
+        for i in 0..m {
+            let mut seed = [0x5au8; 32];
+            seed[..4].copy_from_slice(&i.to_be_bytes());
+            let author = iroh_docs::Author::from_bytes(&seed);
+            let (h, l) = Val::X.hash_len();
+            let (ts_a, ts_z) = if i % 2 == 0 { (T0 + 2, T0 + 1) } else { (T0 + 1, T0 + 2) };
+            for (key, ts) in [(&b"z"[..], ts_z), (&b"a"[..], ts_a)] {
+                let e = SignedEntry::from_parts(&crate::universe::ns_secret(0), &author, key, Record::new(h, l, ts));
+                let _ = sut.remote(ns, e);
+            }
+        }
+        let o = observe_big(&mut sut);
+        sut.store.flush().expect("flush");
+        o
+    };
+    if maintained.0.len() != 2 * m as usize {
+        bad.push(("MACHINERY_table_deleted", format!("large store holds {} entries, expected {}", maintained.0.len(), 2 * m)));
+        return (bad, checks);
+    }
+    if variant != 0 {
+        let db = redb::Database::create(&path).expect("plain redb open");
+        let tx = db.begin_write().expect("begin_write");
+        if variant & 1 != 0 {
+            tx.delete_table(HEADS).expect("delete heads");
+        }
+        if variant & 2 != 0 {
+            tx.delete_table(BY_KEY).expect("delete by-key");
+        }
+        tx.commit().expect("commit");
+        drop(db);
+    }
+    for cycle in 1..=2 {
+        let mut sut = match Sut::persistent(&path) {
+            Ok(s) => s,
+            Err(e) => {
+                bad.push(("reopen_ok", format!("cycle {cycle}: {e:#}")));
+                break;
+            }
+        };
+        let (dump, by_key, heads) = observe_big(&mut sut);
+        checks += 3;
+        if variant == 0 && (dump.clone(), by_key.clone(), heads.clone()) != maintained {
+            bad.push(("reopen_is_a_noop", format!("{m} authors, cycle {cycle}: observable content changed by reopening an up-to-date database")));
+        }
+        if dump != maintained.0 {
+            bad.push(("records_untouched", format!("{m} authors, cycle {cycle}: records changed")));
+        }
+        let mut want: BTreeMap<[u8; 32], u64> = BTreeMap::new();
+        for e in &dump {
+            let t = want.entry(e.author().to_bytes()).or_insert(0);
+            *t = (*t).max(e.timestamp());
+        }
+        let got: BTreeMap<[u8; 32], u64> = heads.iter().map(|(a, t, _)| (*a, *t)).collect();
+        if got != want || heads.len() != want.len() {
+            let wrong = want.iter().filter(|(a, t)| got.get(*a) != Some(t)).count();
+            bad.push(("heads_rebuilt_exactly", format!("{m} authors with two entries each, cycle {cycle}: {wrong} of {} heads differ from the per-author maximum over the records ({} heads reported)", want.len(), heads.len())));
+        } else {
+            for (a, t, k) in &heads {
+                if !dump.iter().any(|e| e.author().to_bytes() == *a && e.key() == &k[..] && e.timestamp() == *t) {
+                    bad.push(("head_key_attains_max", format!("{m} authors, cycle {cycle}: a head's key does not hold the head timestamp")));
+                    break;
+                }
+            }
+        }
+        let mut sorted = by_key.clone();
+        sorted.sort_by_key(|e| (e.author().to_bytes(), e.key().to_vec()));
+        if sorted != dump {
+            bad.push(("by_key_index_rebuilt_exactly", format!("{m} authors, cycle {cycle}: the by-key listing has {} entries, the records {}", by_key.len(), dump.len())));
+        }
+        let mut in_key_order = dump.clone();
+        in_key_order.sort_by_key(|e| (e.key().to_vec(), e.author().to_bytes()));
+        if by_key != in_key_order {
+            bad.push(("key_ordered_query_after_rebuild", format!("{m} authors, cycle {cycle}: the key-author listing is not the records in (key, author) order")));
+        }
+        sut.store.flush().expect("flush");
+    }
+    (bad, checks)
+}
+
+const MANY_AUTHORS: u32 = 2100;
+
 fn run(ctx: &Ctx, report: &mut Report) {
     crate::util::silence_panics();
+    for variant in 0u8..4 {
+        let ordinal = (1u64 << 40) + 5 + 3 * variant as u64;
+        if !ctx.mine(ordinal) {
+            continue;
+        }
+        report.evaluations += 1;
+        report.nontrivial += (variant != 0) as u64;
+        report.count("large_databases", 1);
+        let case = json!({"many_authors": MANY_AUTHORS, "variant": variant});
+        match catch(|| run_many_authors(MANY_AUTHORS, variant)) {
+            Err(p) => report.violation("no_panic", json!({"variant": variant, "large": true}), case, format!("panic: {p}"), ordinal),
+            Ok((bad, checks)) => {
+                report.count("checks", checks);
+                for (o, d) in bad {
+                    if o.starts_with("MACHINERY") {
+                        report.machinery_error(d);
+                    } else {
+                        report.violation(o, json!({"variant": variant, "large": true}), case.clone(), d, ordinal);
+                    }
+                }
+            }
+        }
+    }
     let u = universe16();
     let k = if ctx.quick() { 4 } else { 5 };
     let mut ordinal = 0u64;
@@ -311,6 +432,16 @@ fn run(ctx: &Ctx, report: &mut Report) {
 }
 
 fn replay(case: &Value) -> anyhow::Result<(bool, String)> {
+    if let Some(m) = case.get("many_authors").and_then(|m| m.as_u64()) {
+        let variant = case["variant"].as_u64().unwrap_or(3) as u8;
+        return match catch(|| run_many_authors(m as u32, variant)) {
+            Err(p) => Ok((true, format!("panic: {p}"))),
+            Ok((bad, _)) => {
+                let out: String = bad.iter().map(|(o, d)| format!("FAILED {o}: {d}\n")).collect();
+                Ok((!bad.is_empty(), format!("{m} authors, variant {variant}\n{out}")))
+            }
+        };
+    }
     let offered: Vec<Spec> = serde_json::from_value(case["offered"].clone())?;
     let variant = case["variant"].as_u64().unwrap_or(3) as u8;
     match catch(|| run_case(&offered, variant)) {
